@@ -10,6 +10,7 @@ CONSTANTS
   MaxSendErrs = 1
   MaxResults = 2
   KindSet = {"ok", "ne", "nr"}
+  BuCap = 2
   FixF22 = FALSE
   GenHist = FALSE
 INIT Init
